@@ -50,6 +50,9 @@ type c06Hop struct {
 	Orc   c06Oracle `json:"orc"`
 	// Fails (C06 only): indices of this step's Storage calls that return an injected error
 	Fails []int `json:"fails,omitempty"`
+	// More (C06 only): non-empty = the retrying entry point (ObtainCertAsync / RenewCertAsync); the issuers'
+	// answers of the 2nd, 3rd ... attempt (Orc = first attempt). A failure in the last listed attempt is final.
+	More []c06Oracle `json:"more,omitempty"`
 }
 type c06Cfg struct {
 	N       int    `json:"n"`
@@ -127,6 +130,7 @@ type c06World struct {
 	chainDigest map[int]string
 	chainBlocks map[int]int
 	orc         *c06Oracle
+	more        []c06Oracle
 	inst        int
 	curInst     string
 
@@ -201,11 +205,26 @@ func (i *c06Issuer) Issue(ctx context.Context, csr *x509.CertificateRequest) (*c
 	w := i.w
 	kid := w.keyID(csr.PublicKey)
 	out := c06Outcome{}
-	if w.orc != nil && i.idx < len(w.orc.Out) {
-		out = w.orc.Out[i.idx]
+	// the attempt number of a retrying call selects the answers; only the last listed attempt fails for good
+	attempt := 0
+	if p, ok := ctx.Value(certmagic.AttemptsCtxKey).(*int); ok && p != nil {
+		attempt = *p
+	}
+	orc, final := w.orc, true
+	if attempt > 0 && len(w.more) > 0 {
+		orc = &w.more[min(attempt, len(w.more))-1]
+	}
+	if attempt < len(w.more) {
+		final = false
+	}
+	if orc != nil && i.idx < len(orc.Out) {
+		out = orc.Out[i.idx]
 	}
 	if !out.Up {
 		w.note("IssueFail", fmt.Sprintf("%d:%d", i.idx, kid))
+		if !final {
+			return nil, errors.New("issuer down (harness), try again")
+		}
 		return nil, certmagic.ErrNoRetry{Err: errors.New("issuer down (harness)")}
 	}
 	w.note("IssueOK", fmt.Sprintf("%d:%d", i.idx, kid))
@@ -460,7 +479,7 @@ func (w *c06World) revokeEnv(i int, kc bool) {
 
 // runHop executes one high-level operation on a fresh instance. plan != nil injects faults.
 func (w *c06World) runHop(h c06Hop, plan *c06Plan, doProbe bool) c06Obs {
-	w.orc = &h.Orc
+	w.orc, w.more = &h.Orc, h.More
 	inst := fmt.Sprintf("i%d", w.inst)
 	w.inst++
 	w.curInst = inst
@@ -484,9 +503,17 @@ func (w *c06World) runHop(h c06Hop, plan *c06Plan, doProbe bool) c06Obs {
 		}()
 		switch h.Op {
 		case "obtain":
-			err = cfg.ObtainCertSync(ctx, w.subj.Spelling)
+			if len(h.More) > 0 {
+				err = cfg.ObtainCertAsync(ctx, w.subj.Spelling)
+			} else {
+				err = cfg.ObtainCertSync(ctx, w.subj.Spelling)
+			}
 		case "renew":
-			err = cfg.RenewCertSync(ctx, w.subj.Spelling, h.Force)
+			if len(h.More) > 0 {
+				err = cfg.RenewCertAsync(ctx, w.subj.Spelling, h.Force)
+			} else {
+				err = cfg.RenewCertSync(ctx, w.subj.Spelling, h.Force)
+			}
 		case "manage":
 			err = cfg.ManageSync(ctx, []string{w.subj.Spelling})
 		case "revenv":
